@@ -181,6 +181,15 @@ static int harness_sockets(Ctx& c) {
   return n;
 }
 
+// Private containers are reached generically (ROBUSTNESS.md rule 2): range-for + these helpers, so that a change of the
+// container or of the smart pointer type does not break the harness.
+template <class T> static T* raw(T* p) { return p; }
+template <class T, class D> static T* raw(const std::unique_ptr<T, D>& p) { return p.get(); }
+template <class T> static T* raw(const std::shared_ptr<T>& p) { return p.get(); }
+template <class E> static auto* elem_ptr(E& e) {
+  if constexpr (requires { e.second; }) return raw(e.second); else return raw(e);
+}
+
 static torrent::HandshakeManager* hm() { return torrent::manager->handshake_manager(); }
 
 static bool fd_remote_is(int fd, const std::string& ip, uint16_t port) {
@@ -194,7 +203,7 @@ static bool fd_remote_is(int fd, const std::string& ip, uint16_t port) {
 static torrent::Handshake* find_handshake(const std::string& ip, uint16_t port) {
   auto* base = (torrent::HandshakeManager::base_type*)hm();   // private base (read only)
   for (auto& h : *base)
-    if (h && h->file_descriptor() >= 0 && fd_remote_is(h->file_descriptor(), ip, port)) return h.get();
+    if (raw(h) != nullptr && raw(h)->file_descriptor() >= 0 && fd_remote_is(raw(h)->file_descriptor(), ip, port)) return raw(h);
   return nullptr;
 }
 
@@ -212,7 +221,7 @@ static std::string pi_str(Ctx& c, SPeer& p) {
   if (c.removed) return "x";
   std::vector<std::string> v;
   for (auto& kvp : *c.T->dl.peer_list()) {
-    torrent::PeerInfo* pi = kvp.second.get();
+    torrent::PeerInfo* pi = elem_ptr(kvp);
     if (torrent::sa_addr_str(pi->socket_address()) != p.ip) continue;
     std::string s;
     if (pi->is_connected()) s += "c";
@@ -298,7 +307,9 @@ static std::string glob(Ctx& c, const KernelView& kv) {
     << ",td" << torrent::manager->download_throttle()->throttle_list()->size()
     << ",sk" << (int)torrent::runtime::socket_manager()->category_managed_size(torrent::runtime::category_generic) - (int)c.base_sm
     << "~ks" << (kv.sockets - harness_sockets(c)) - (c.base.sockets - c.harness_socks_base)
-    << ",ke" << kv.epoll_entries - c.base.epoll_entries;
+    << ",ke" << kv.epoll_entries - c.base.epoll_entries
+    << ",qu" << torrent::manager->upload_throttle()->throttle_list()->outstanding_quota()
+    << ",qd" << torrent::manager->download_throttle()->throttle_list()->outstanding_quota();
   return o.str();
 }
 
@@ -383,6 +394,15 @@ static bool lib_has_unread(Ctx& c) {
     if (fd >= 0 && ioctl(fd, FIONREAD, &n) == 0 && n > 0) return true;
   }
   return false;
+}
+
+static int lib_unread_bytes(Ctx& c, SPeer& p) {
+  int fd = -1, n = 0;
+  torrent::PeerConnectionBase* pcb = (c.removed || p.port == 0) ? nullptr : c.S->find_connection(c.T, p.ip, p.port);
+  if (pcb != nullptr) fd = pcb->file_descriptor();
+  else if (torrent::Handshake* h = p.port ? find_handshake(p.ip, p.port) : nullptr) fd = h->file_descriptor();
+  if (fd >= 0 && ioctl(fd, FIONREAD, &n) == 0 && n > 0) return n;
+  return 0;
 }
 
 static void pump_all(Ctx& c) {
@@ -496,6 +516,20 @@ static bool make_scenario(const std::string& name, Scenario& s) {
     s.maxconn = 1;
     s.steps = {A(0, "max"), A(0, "conn"), B(0, "hsa", 60), A(1, "conn"), B(1, "hsa", 60), B(0, "hsb", 8), B(0, "bf0", 6),
                B(1, "hsb", 8), B(1, "bf0", 6), A(2, "conn"), B(2, "hs", 68), B(0, "in", 5)};
+  } else if (name == "hfail") {
+    // incoming handshake from an address whose PeerInfo has failed_counter > HandshakeManager::max_failed:
+    // the handshake is dropped right after the peer id was read (PeerList::connected already set flag_connected)
+    s.have = std::string(NP, '1');
+    s.steps = {A(0, "failpi"), A(0, "conn"), B(0, "hs", 68), B(0, "bf0", 6), B(0, "in", 5)};
+  } else if (name == "thrd") {
+    // small global DOWNLOAD rate limit: the connection runs out of quota inside the block and is parked in the
+    // inactive part of the throttle list when the fault hits
+    s.have = std::string(NP, '0');
+    s.steps = {A(0, "dlimit"), A(0, "conn"), B(0, "hs", 68), B(0, "bf1", 6), B(0, "un", 5), B(0, "pc", PIECE_MSG)};
+  } else if (name == "thru") {
+    // small global UPLOAD rate limit: the piece being served stalls on quota
+    s.have = std::string(NP, '1');
+    s.steps = {A(0, "ulimit"), A(0, "conn"), B(0, "hs", 68), B(0, "bf0", 6), B(0, "in", 5), B(0, "rq:0", 17), B(0, "rq:1", 17), B(0, "ni", 5)};
   } else if (name == "fullx") {
     // the same with extension-protocol peers while PEX is active (size_pex is counted from the handshake on)
     s.have = std::string(NP, '1');
@@ -584,6 +618,22 @@ static bool do_action(Ctx& c, const Step& st) {
     Session::set_send_budget(p.ip, p.port, atoll(st.kind.c_str() + 7));
     c.ev.push_back("A" + std::to_string(p.id) + ":" + st.kind);
     pump_all(c);
+  } else if (st.kind == "failpi") {
+    sockaddr_in sa{};
+    sa.sin_family = AF_INET;
+    inet_pton(AF_INET, p.ip.c_str(), &sa.sin_addr);
+    sa.sin_port = htons(6881);
+    torrent::PeerInfo* pi = c.T->dl.peer_list()->connected((sockaddr*)&sa, torrent::PeerList::connect_incoming);
+    if (pi == nullptr) return false;
+    pi->set_failed_counter(torrent::HandshakeManager::max_failed + 1);
+    c.T->dl.peer_list()->disconnected(pi, 0);
+    c.ev.push_back("A" + std::to_string(p.id) + ":failpi");
+  } else if (st.kind == "dlimit") {
+    torrent::down_throttle_global()->set_max_rate(1000);
+    c.ev.push_back("A:dlimit");
+  } else if (st.kind == "ulimit") {
+    torrent::up_throttle_global()->set_max_rate(1000);
+    c.ev.push_back("A:ulimit");
   } else if (st.kind == "max") {
     c.T->dl.connection_list()->set_max_size(1);
     c.ev.push_back("A:max:1");
@@ -717,7 +767,7 @@ static int live_pex_holders(Ctx& c) {
   }
   auto* base = (torrent::HandshakeManager::base_type*)hm();
   for (auto& h : *base)
-    if (h && h->download() == c.T->main() && !h->extensions()->is_default() && h->extensions()->is_local_enabled(torrent::ProtocolExtension::UT_PEX)) n++;
+    if (raw(h) != nullptr && raw(h)->download() == c.T->main() && !raw(h)->extensions()->is_default() && raw(h)->extensions()->is_local_enabled(torrent::ProtocolExtension::UT_PEX)) n++;
   return n;
 }
 
@@ -728,6 +778,13 @@ static std::string run_case(const std::string& line) {
     if (e != std::string::npos) kv[tok.substr(0, e)] = tok.substr(e + 1);
   }
   if (kv.count("info")) return layout(kv["sc"]);
+  if (kv.count("params")) {   // constants of the COMPILED code (ROBUSTNESS.md rule 3)
+    torrent::DownloadInfo di;
+    std::ostringstream o;
+    o << "c16_hs_part1=" << torrent::Handshake::part1_size << " c16_hs_size=" << torrent::Handshake::handshake_size
+      << " c16_piece_hdr=" << (unsigned)torrent::ProtocolBase::sizeof_piece << " c16_max_size_pex=" << di.max_size_pex();
+    return o.str();
+  }
   Scenario sc;
   if (!make_scenario(kv["sc"], sc)) return "BADCASE";
   uint32_t cut = (uint32_t)std::stoul(kv["k"]);
@@ -754,6 +811,8 @@ static std::string run_case(const std::string& line) {
   else for (uint32_t i = 0; i < NP; i++) if (sc.have[i] != '1') spec.corrupt_pieces.push_back(i);
   g_close_track = false;
   Session::clear_io_limits();
+  torrent::down_throttle_global()->set_max_rate(0);
+  torrent::up_throttle_global()->set_max_rate(0);
   S.avoid_tick_within(20 * 1000000);
   c.T = S.add_torrent(spec);
   if (c.T->completed_bits() != sc.have) { S.remove(c.T); return "ERR:hashcheck " + c.T->completed_bits(); }
@@ -809,10 +868,16 @@ static std::string run_case(const std::string& line) {
       if (kind == "hsa") kind = "hs";
       if (kind == "hsb") { kind = "hs"; n += 60; len = 68; }
       if (st.kind == "hsa") len = 68;
-      c.ev.push_back("B" + std::to_string(p.id) + ":" + kind + ":" + std::to_string(n) + "/" + std::to_string(len));
+      size_t pos = c.ev.size();
+      consumed += allow;
+      pump_all(c);
+      if (st.kind == "pc" || st.kind == "pp" || st.kind == "bad" || st.kind == "pr") {
+        // under a rate limit the library may have left part of the block in its socket's receive queue
+        uint32_t unread = (uint32_t)lib_unread_bytes(c, p);
+        n -= std::min(unread, std::min(n, allow));
+      }
+      c.ev.insert(c.ev.begin() + pos, "B" + std::to_string(p.id) + ":" + kind + ":" + std::to_string(n) + "/" + std::to_string(len));
     }
-    consumed += allow;
-    pump_all(c);
     if (st.kind == "pc" || st.kind == "pr" || st.kind == "bad") wait_hash(c);
     if (allow < bytes.size()) { stopped = true; break; }
   }
@@ -941,6 +1006,8 @@ static std::string run_case(const std::string& line) {
 
   // ---- restart and finish / serve with a healthy peer
   Session::clear_io_limits();
+  torrent::down_throttle_global()->set_max_rate(0);
+  torrent::up_throttle_global()->set_max_rate(0);
   try {
     if (c.removed) {
       c.T = S.add_torrent(spec);
@@ -978,10 +1045,20 @@ static std::string run_case(const std::string& line) {
   return out;
 }
 
+// per-case watchdog (ROBUSTNESS.md rule 5): a case that does not finish is reported as ERR:hang, the run goes on
+static void on_alarm(int) {
+  static const char msg[] = "ERR:hang\n";
+  ssize_t r = write(1, msg, sizeof msg - 1);
+  (void)r;
+  _exit(3);
+}
+
 int main() {
   std_setup();
+  signal(SIGALRM, on_alarm);
   std::string line;
   while (std::getline(std::cin, line)) {
+    alarm(30);
     try {
       std::cout << run_case(line) << "\n";
     } catch (torrent::internal_error& e) {
